@@ -180,6 +180,12 @@ class C22(Prop):
         "(dst_ok), writable or read-only, in every cell of "
         "the routing tables but two: the entry at the registered path is a link to the source (read-only only) or a copy equal to "
         "the dereferenced source -- which of the three is stated route by route (copy_exact) -- and other entries of an existing "
+        "directory are kept. Re-transfer over an earlier copy (C22_retransfer_tar): on the tar routes (L->R, R->L, R->other "
+        "location), for every earlier tree of the same shape under the source's name (any stale contents / exec bits) the entry "
+        "afterwards is exactly the dereferenced source and the other entries are untouched. The local extraction loop is also "
+        "modelled with Python's errors (r2l_chk): it raises at the first member that cannot be written and leaves exactly what "
+        "the earlier members wrote (C22_extract_loop_partial), and agrees with the error-free model when it does not raise. Other "
+        "entries of an existing "
         "directory are kept; the archive/extraction theorems are stated on the no-kind-conflict domain (no_conflict; dst_ok "
         "implies it; outside it the total model functions are shown NOT to describe the tools); the extract_tar_stream loop and "
         "--strip-components 1 are proved equal to plain extraction at the registered place; dereferencing keeps trees well "
@@ -199,8 +205,10 @@ class C22(Prop):
         "existing regular file, and a destination directory that already holds an entry named like the source -- i.e. every "
         "re-transfer over an earlier copy (recovery retries) and every kind conflict; there the oracle finds real deviations "
         "(stale copies kept by EEXIST-swallowing symlink / ln over a directory, cp without -p keeping old modes, kind conflicts "
-        "and failing tars returning normally, a hang when a large remote->local copy fails), all listed in known/C22.txt; the "
-        "model is compared there except for kind conflicts and cp over existing files/links. Tool semantics (GNU tar, cp, ln, tee, mkdir, test, Python tarfile/shutil) are modelled from their manuals and "
+        "and failing tars returning normally), all listed in known/C22.txt (the hang of a failing remote copy is fixed, 0f73aad); "
+        "re-transfer is PROVED only for the tar routes into a directory holding a same-shape earlier copy; the model is compared "
+        "on all these states except kind conflicts on routes other than remote->local (GNU tar carries on after a refused member; "
+        "cp/ln refusals) and cp over existing files/links. Tool semantics (GNU tar, cp, ln, tee, mkdir, test, Python tarfile/shutil) are modelled from their manuals and "
         "validated only by the runs; paths are component lists (string path arithmetic of posixpath is exercised, not proved); "
         "the registry half ('registered as an available copy') is, in Coq, only the computed path and data type -- the registry "
         "itself is C21's model (DataReg), not re-imported here; what the real data manager lists for the destination after the "
@@ -500,7 +508,7 @@ class C22(Prop):
             async def get_stream_reader(self, command, location):
                 self.log.append(["reader", " ".join(command)])
                 return SubprocessStreamReaderWrapperContextManager(coro=asyncio.create_subprocess_exec(
-                    "unshare", "-m", "/bin/sh", "-c", self._prefix(location) + " ".join(command), stdin=asyncio.subprocess.DEVNULL,
+                    "unshare", "-m", "/bin/sh", "-c", self._prefix(location) + "exec " + " ".join(command), stdin=asyncio.subprocess.DEVNULL,
                     stdout=asyncio.subprocess.PIPE, stderr=asyncio.subprocess.DEVNULL))
 
             async def get_stream_writer(self, command, location):
@@ -566,14 +574,51 @@ class C22(Prop):
 
     def impl_run(self, c):
         safe = shell_safe(c["sname"]) and shell_safe(c["dname"])
-        # unsafe roots (known finding class) may leave the persistent shell waiting for ever: do not wait long for those
-        # a failing remote->local copy can block for ever (known finding): kind-conflict cases get a short budget and no retry
-        o = self.asyncio.run(self._run(c, (15 if kind_conflict(c) else 40) if safe else 6))
-        if o["err"] == "timeout" and safe and not kind_conflict(c):
-            # a loaded machine must not turn into an alarm: one more attempt with a generous budget; a real hang stays a hang
-            o = self.asyncio.run(self._run(c, 150))
+        if not safe:
+            # unsafe roots (known finding class) may leave the persistent shell waiting for ever: do not wait long for those
+            return self.asyncio.run(self._run(c, 6))
+        o = self.asyncio.run(self._run(c, 40, 240))
+        if o["err"] == "slow":          # no verdict: once more
+            o = self.asyncio.run(self._run(c, 60, 400))
             o["retried"] = True
         return o
+
+    async def _stalled(self, task, cap):
+        """'done' | 'hang' | 'slow' for a transfer that did not finish within its first budget."""
+        import time
+
+        import psutil
+        me = psutil.Process()
+
+        def sample():
+            tot, runnable = 0.0, False
+            try:
+                kids = me.children(recursive=True)
+            except psutil.Error:
+                kids = []
+            for p in kids:
+                try:
+                    t = p.cpu_times()
+                    tot += t.user + t.system
+                    if p.status() in (psutil.STATUS_RUNNING, psutil.STATUS_DISK_SLEEP):
+                        runnable = True
+                except psutil.Error:
+                    pass
+            t = me.cpu_times()
+            return tot, t.user + t.system, runnable
+        idle, t0 = 0, time.time()
+        kid0, self0, _ = sample()
+        while time.time() - t0 < cap:
+            await self.asyncio.wait([task], timeout=1.0)
+            if task.done():
+                return "done"
+            kid1, self1, runnable = sample()
+            busy = runnable or kid1 - kid0 > 0.005 or self1 - self0 > 0.25
+            kid0, self0 = kid1, self1
+            idle = 0 if busy else idle + 1
+            if idle >= 6:
+                return "hang"
+        return "slow"
 
     def _phys(self, base, kind, logical: str) -> str:
         """Host path of the storage behind a logical path of location `kind` (L: the path itself)."""
@@ -620,7 +665,7 @@ class C22(Prop):
                 return {"t": "f", "c": ctok(f.read()), "x": bool(st.st_mode & 0o100)}
         return {"t": "other"}
 
-    async def _run(self, c, budget):
+    async def _run(self, c, budget, cap=None):
         asyncio = self.asyncio
         self.n += 1
         base = os.path.join(self.scratch, f"c{self.n}")
@@ -659,14 +704,26 @@ class C22(Prop):
         sl = locs[c["src"]]
         ctx.data_manager.register_path(location=sl, path=src, relpath=src, data_type=self.DataType.PRIMARY)
         out = {"err": None}
-        try:
-            await asyncio.wait_for(ctx.data_manager.transfer_data(src_location=sl, src_path=src, dst_locations=[locs[k] for k in dkinds],
-                                                                  dst_path=dst, writable=c["w"]), budget)
-        except asyncio.TimeoutError:
-            out["err"] = "timeout"
-        except Exception as e:  # noqa
-            out["err"] = type(e).__name__
-            out["msg"] = str(e).replace(self.scratch, "$")[:300]
+        task = asyncio.ensure_future(ctx.data_manager.transfer_data(src_location=sl, src_path=src, dst_locations=[locs[k] for k in dkinds],
+                                                                    dst_path=dst, writable=c["w"]))
+        done, _ = await asyncio.wait([task], timeout=budget)
+        if not done:
+            # not finished in time: a wall-clock limit decides nothing.  Look at the processes: if for several seconds nothing
+            # is runnable and no CPU time is used anywhere, the transfer is blocked for good ("hang", a verdict); while
+            # anything still makes progress keep waiting, and past a hard cap give up without a verdict ("slow").
+            verdict = await self._stalled(task, cap) if cap else "timeout"
+            if verdict != "done":
+                out["err"] = verdict
+                task.cancel()
+                await asyncio.wait([task], timeout=5)
+        if out["err"] is None:
+            try:
+                task.result()
+            except asyncio.CancelledError:
+                out["err"] = "CancelledError"
+            except Exception as e:  # noqa
+                out["err"] = type(e).__name__
+                out["msg"] = str(e).replace(self.scratch, "$")[:300]
         inner = os.path.join(dst, c["sname"])
 
         def observe(k):
@@ -699,7 +756,7 @@ class C22(Prop):
         out["src"] = self._snap_at(base, c["src"], src, src)
         out["cmds"] = [[k, s.replace(self.scratch, "$")] for d in ("r1", "r2", "w1") for (k, s) in dm.get_connector(d).log]
         try:
-            await asyncio.wait_for(dm.undeploy_all(), 8 if out["err"] != "timeout" else 2)
+            await asyncio.wait_for(dm.undeploy_all(), 8 if out["err"] not in ("timeout", "hang", "slow") else 2)
         except Exception:  # noqa
             pass
         os.chdir(self.scratch)
@@ -745,6 +802,10 @@ class C22(Prop):
         return None
 
     def _first_failure(self, c, o):
+        if o["err"] == "slow":
+            return None         # the machine was too loaded to finish this case twice: no verdict
+        if o["err"] == "hang":
+            return (c["dst"], ("transfer-hangs", "transfer_data is blocked for good: no process runnable, no CPU time used for 6 s"))
         if o["err"]:
             if kind_conflict(c) and o["err"] != "timeout":
                 return None     # a file where a directory has to go (or the reverse): refusing loudly is no loss of exactness
@@ -808,7 +869,7 @@ class C22(Prop):
         return None
 
     def coq_case(self, c, o):
-        if "crash" in o or "hang" in o:
+        if "crash" in o or "hang" in o or o.get("err") in ("slow", "hang"):
             return None
         terms = []
         for k, od in self._dests(c, o):
@@ -823,8 +884,9 @@ class C22(Prop):
                 if x is None:
                     return None
                 odst = f"(Some {x})"
-            if kind_conflict(c):
-                return None          # outside the model's domain (FsTree.Cells.fits): tar/tarfile/cp refuse or half-copy
+            if kind_conflict(c) and route != "RL":
+                return None          # outside the model's domain (FsTree.Cells.fits): GNU tar carries on, cp/ln refuse
+            # remote->local kind conflicts ARE compared: r2l_chk models Python's errors and what was written before them
             if route == "RRsame" and c["w"] and c["dstate"] in ("file", "stale"):
                 return None          # cp without -p keeps the mode of a regular file it overwrites: not modelled
             if route == "RRsame" and c["w"] and c["dstate"] == "copy" and has_link(c["tree"]):
